@@ -54,15 +54,15 @@ func (c e2Cfg) String() string {
 	return fmt.Sprintf("active=%v threshold=%d suppression=%v interval=%v T6=%v", c.Active, c.Threshold, c.Suppress, c.interval(), c.t6())
 }
 
-// e2Case: Script is a string over {A,I,S,L,B,D,W,R,F}, one letter per round.
+// e2Case: Script is a string over {A,I,S,L,B,D,W,R,F,K}, one letter per round.
 type e2Case struct {
 	Cfg    e2Cfg  `json:"cfg"`
 	Script string `json:"script"`
 }
 
 const (
-	alphabet     = "AISLBDWRF" // full alphabet, simplest first
-	coreAlphabet = "AIBDWRF"   // without the slow / late answers
+	alphabet     = "AISLBDWRFK" // full alphabet, simplest first
+	coreAlphabet = "AIBDWRFK"   // without the slow / late answers
 )
 
 // ---- reference timeline ----
@@ -127,6 +127,10 @@ func simulate(cfg e2Cfg, script string, tSel time.Duration, tail bool) timeline 
 			tl.Steps = append(tl.Steps, planStep{At: F - delta, Kind: 'f'})
 			tl.LibData = append(tl.LibData, F-delta)
 			lastAct = F - delta
+		case 'K':
+			// a third party dials the passive library's port and is refused: nothing happened on the
+			// session's own connection, so this is neither traffic nor a sign of life
+			tl.Steps = append(tl.Steps, planStep{At: F - delta, Kind: 'k'})
 		case 'R':
 			tl.Steps = append(tl.Steps, planStep{At: F - delta, Kind: 'r'})
 			if outstanding > 0 {
@@ -368,6 +372,12 @@ func runE2(t *testing.T, ec e2Case) (obs observation, fails []failure, harness s
 				}))
 				w.Settle()
 				readAll()
+			case 'k':
+				if c2 := w.Net.Connect(); c2 != nil {
+					w.Settle()
+					_ = c2.Close()
+					w.Settle()
+				}
 			case 'r':
 				for _, ws := range wsends {
 					if ws.seen && ws.replied == 0 {
@@ -613,6 +623,10 @@ func scripts(cfg e2Cfg, fullLen, maxLen int, visit func(s string)) (nodes int64)
 						continue
 					}
 					o = 0
+				case 'K':
+					if cfg.Active {
+						continue // there is no port to knock at
+					}
 				}
 				byLen(prefix+string(a), o)
 			}
